@@ -48,7 +48,10 @@ finally:
         from vlib import env as venv
         venv.REPO = scratch
         key = venv.source_hash()
-        shutil.rmtree(os.path.join(venv.NBCACHE, key), ignore_errors=True)
+        venv._cache_key = None
+        venv.REPO = '/repo'
+        if key != venv.source_hash():     # a mutation of generated C leaves the .py hash equal to /repo's: keep the shared cache
+            shutil.rmtree(os.path.join(venv.NBCACHE, key), ignore_errors=True)
     except Exception as e:
         print('cache cleanup:', e)
     shutil.rmtree(scratch, ignore_errors=True)
